@@ -7,8 +7,7 @@
    2^64 entries cannot exist in memory); they are what keeps the wrapped epoch arithmetic exact.
    The composition of the agent-side queue with the runtime-side MapOperationQueue across the byte channel
    (a FIFO pipe: C12) is Proofs/MapTwoStageProofs.v.
-   Not covered by theorems (checked by correspondence + oracle on the real lane on every run): the
-   per-remote sync replicas. *)
+   The per-remote sync replicas are C03's theorems (Proofs/MapLaneSyncProofs.v). *)
 From SwimV Require Import Model.MapLane Proofs.MapQueueProofs Proofs.MapLaneProofs Proofs.MapTwoStageProofs.
 From Coq Require Import Permutation.
 Open Scope N_scope.
